@@ -23,6 +23,12 @@ def builds_needed(tier):
     return ["rel"]
 
 
+# Own corpus re-run on other builds of the crate (mc/core.py: extra builds). Every observation is compared with the same model.
+def extra_builds(tier):
+    return [("relchk", None), ("sse41", None), ("avx2", None)]
+
+
+
 def bounds(tier):
     return {"cipher_tree_depth": 4 if tier == "thorough" else 3, "cipher_graph_bytes_per_seek": 257,
             "cipher_graph_seeks": 2 if tier == "thorough" else 1, "drg_tree_depth": 3,
